@@ -320,6 +320,44 @@ def rule_phase_pivot(ctx: Ctx) -> None:
             ctx.ok("phase.pivot", m, b, what=f"global phase taken at a provably non-zero entry of {mat}")
 
 
+def rule_equiv_decision(ctx: Ctx) -> None:
+    """equiv.decision: check_equivalent_unitaries as a decision table over its atoms (is_unitary of each operand, the proportionality
+    test `allclose(op1, phase * op2)`, further tests): it answers True only when both operands are unitary and proportional, and it
+    answers True when every atom holds.  This is what makes simplify_local_clifford reject a non-Clifford (non-unitary) matrix."""
+    from .. import boolform
+    repo = ctx.repo
+    m = repo.module(DMF)
+    fn = repo.anchor(DMF, "check_equivalent_unitaries")
+    ctx.touch(m, fn)
+    ps = func_params(fn)[:2]
+    tb = boolform.Table()
+    try:
+        prog = tb.outcomes(fn.body)
+        rows = list(tb.rows())
+    except boolform.Undecidable as e:
+        raise AnalysisError(f"check_equivalent_unitaries: decision not tabulated ({e})")
+    uni = [k for k in tb.atoms if k.startswith("is_unitary(")]
+    prop_ = [k for k in tb.atoms if " == " in k and all(q in k for q in ps)]
+    if sorted(uni) != sorted(f"is_unitary({q})" for q in ps) or len(prop_) != 1:
+        raise AnalysisError(f"check_equivalent_unitaries: unitarity tests of both operands and one proportionality test expected (atoms {sorted(tb.atoms)})")
+    need = uni + prop_
+    bad = None
+    for a in rows:
+        out = prog(a)
+        if out[0] != "return" or out[1] is None:
+            raise AnalysisError("check_equivalent_unitaries: a path does not return a boolean constant / formula")
+        if out[1] and not all(a[k] for k in need):
+            bad = "answers True although " + " and ".join(f"`{k}` is false" for k in need if not a[k])
+            break
+        if all(a.values()) and not out[1]:
+            bad = "answers False although both operands are unitary and proportional"
+            break
+    if bad:
+        ctx.fail("equiv.decision", m, fn, f"check_equivalent_unitaries {bad}", func="check_equivalent_unitaries", construct=f"check_equivalent_unitaries: {bad[:60]}")
+    else:
+        ctx.ok("equiv.decision", m, fn, what=f"{len(rows)} rows over {len(tb.atoms)} atoms: True only for unitary, proportional operands")
+
+
 def rule_simplify_member(ctx: Ctx) -> None:
     """simplify.member: simplify_local_clifford answers with a member of the 24-element table on every path: each return value is what
     find_local_clifford_by_matrix returned for the product matrix of the input list.  Returning (a copy of) the input under some
@@ -379,6 +417,7 @@ def run(ctx: Ctx) -> None:
     _memo.rule_isinstance_on_class(ctx, ['graphiq/circuit/ops.py', 'graphiq/backends/density_matrix/functions.py'])
     _memo.rule_zip_truncation(ctx, ['graphiq/circuit/ops.py', 'graphiq/backends/density_matrix/functions.py'])
     rule_phase_pivot(ctx)
+    rule_equiv_decision(ctx)
     rule_clifford24(ctx)
     rule_order_wrapper(ctx)
     rule_expand(ctx)
@@ -436,6 +475,8 @@ def rule_group_order(ctx: Ctx) -> None:
 
 
 KNOCKOUTS = [
+    Knockout("equiv-unitarity-guard-inverted", DMF, sub_once("    if not (is_unitary(unitary_op1) and is_unitary(unitary_op2)):\n        return False\n\n    nonzero", "    if is_unitary(unitary_op1) and is_unitary(unitary_op2):\n        return False\n\n    nonzero"), "equiv.decision", "answers"),
+    Knockout("equiv-phase-modulus-suffices", DMF, sub_once(") and np.allclose(\n        np.abs(global_phase), 1.0", ") or np.allclose(\n        np.abs(global_phase), 1.0"), "equiv.decision", "answers True although"),
     Knockout("grouping-prepends-wrapper-gates", "graphiq/circuit/circuit_dag.py", sub_once("                        gate_list += op.operations\n                        noise_list += op.noise\n", "                        gate_list = op.operations + gate_list\n                        noise_list = op.noise + noise_list\n"), "group.order", "prepend"),
     Knockout("simplify-early-return", OPS, sub_once("    matrix = local_clifford_to_matrix_map(gate_list)\n\n    return find_local_clifford_by_matrix(matrix)", "    if len(gate_list) == 2:\n        return gate_list\n    matrix = local_clifford_to_matrix_map(gate_list)\n\n    return find_local_clifford_by_matrix(matrix)"), "simplify.member", "bypasses the table lookup"),
     Knockout("phase-pivot-mixed", DMF, sub_once("    column = nonzero[1][0]\n", "    column = nonzero[1][-1]\n"), "phase.pivot", "not provably non-zero"),
